@@ -267,6 +267,7 @@ use crate::shrink::resident_kb;
 /// Minimise; when this process has grown too large, hand the current best trace to a fresh child
 /// process (`smtsim shrink <in> <out> <budget>`), which continues (and may hand over again).
 pub fn minimise_across_processes(tr: &crate::trace::Trace, prop: Prop, v: &crate::exec::Violation, budget: usize) -> crate::shrink::Shrunk {
+    crate::shrink::new_shrink_deadline();
     let mut sh = minimise(tr, prop.bit(), v, budget);
     if sh.mem_stop && sh.budget_left > 0 {
         let tmp = root().join("sim/target/tmp");
@@ -331,7 +332,34 @@ pub fn cmd_shrink(inp: &str, outp: &str, budget: usize) -> i32 {
         Some(v) if v.prop == rp.prop && v.rule == rp.rule => v,
         _ => return 2,
     };
-    let sh = minimise_across_processes(&rp.trace, rp.prop, &v, budget.saturating_sub(1));
+    let sh = minimise(&rp.trace, rp.prop.bit(), &v, budget.saturating_sub(1));
+    if sh.mem_stop && sh.budget_left > 1 {
+        // this process has grown too large as well: write the current best over the input file
+        // and *replace* this process by a fresh one with the same output file (a chain of waiting
+        // parents would keep all their memory: 17 of them held 43 GB once)
+        let cur = Replay {
+            prop: sh.violation.prop,
+            rule: sh.violation.rule.to_string(),
+            step: sh.violation.step,
+            detail: sh.violation.detail.clone(),
+            original_steps: rp.original_steps,
+            trace: sh.trace.clone(),
+            log: Vec::new(),
+        };
+        if std::fs::write(inp, cur.to_text()).is_ok() {
+            use std::os::unix::process::CommandExt;
+            let me = std::env::current_exe().expect("exe");
+            let err = Command::new(&me)
+                .arg("shrink")
+                .arg(inp)
+                .arg(outp)
+                .arg((sh.budget_left - 1).to_string())
+                .env("SMTSIM_ROOT", root())
+                .exec();
+            // exec only returns on failure: fall through and report what we have
+            let _ = err;
+        }
+    }
     let out = Replay {
         prop: sh.violation.prop,
         rule: sh.violation.rule.to_string(),
